@@ -12,6 +12,7 @@
   Only property theorems, non-vacuity examples and kernel-checked witnesses live in this file.
 -/
 import NemoVerif.Lemmas.CoreIndex
+import NemoVerif.Lemmas.CoreVM
 
 namespace NemoVerif.C09
 open NemoVerif.CoreIndex
@@ -193,5 +194,108 @@ theorem delete_registered_head_leaves_stale_entry :
     entries (step parked (.delHead "f" "h")) = [("Ev", ("f", "h"))]
     ∧ scan (step parked (.delHead "f" "h")) = []
     ∧ (Op.delHead "f" "h").guard parked = false := by decide
+
+/-! ## CoreVM — the whole-interpreter model (Models/CoreVM/*.lean)
+
+  CoreVM mirrors `run_to_completion` and everything it calls. Its state keeps the index-relevant part
+  (instances, heads, the two dispatch maps) as a `CoreIndex.IState` that can only be changed through
+  `CoreIndex.step`; the structure `IxS` carries the kernel-checked facts "the index is the replay of the
+  logged operations" and "`ok` implies every guard along the log held".  The layer-1 theorems therefore hold
+  for every CoreVM state, by construction — no separate simulation argument is needed. -/
+
+open NemoVerif.CoreVM
+
+/-- **`queue_empty_at_exit`** (proved from the structure of the three nested loops): whenever
+    `runToCompletion` returns normally — for every program, every state, every event, every fuel, every
+    sequence of tie-break outcomes — no internal event is pending. -/
+theorem queue_empty_at_exit (fuel : Nat) (ev : Match.Ev) (s s' : VM)
+    (h : runToCompletion fuel ev s = .ok () s') : s'.r.queue = [] :=
+  runToCompletion_queue_empty fuel ev s s' () h
+
+/-- the two dispatch maps of every CoreVM state are inverse of each other -/
+theorem corevm_maps_consistent (s : VM) : MapsConsistent s.ixs.ix := mapsConsistent_of_vm s
+
+/-- **`quiescent_partial`, index clause**: in every CoreVM state whose `ok` flag is set (every guard of
+    the index layer held so far; the driver reports the flag after every event and the correspondence
+    requires it) and in which no instance is STOPPING, the dispatch index equals the from-scratch scan. -/
+theorem quiescent_partial_index (s : VM) (hok : s.ixs.ok = true) (hns : NoStopping s.ixs.ix) (nm : String) (k : Key) :
+    (bucket s.ixs.ix nm).count k = (scan s.ixs.ix).count (nm, k) :=
+  index_eq_scan (indexOK_of_vm s hok) hns nm k
+
+/-- … in particular after a normal return of `runToCompletion`, together with the empty queue. -/
+theorem quiescent_partial (fuel : Nat) (ev : Match.Ev) (s s' : VM)
+    (h : runToCompletion fuel ev s = .ok () s') (hok : s'.ixs.ok = true) (hns : NoStopping s'.ixs.ix) :
+    s'.r.queue = [] ∧ ∀ nm k, (bucket s'.ixs.ix nm).count k = (scan s'.ixs.ix).count (nm, k) :=
+  ⟨queue_empty_at_exit fuel ev s s' h, fun nm k => quiescent_partial_index s' hok hns nm k⟩
+
+/-- the literal specification: with a program-level name oracle `P` that the ghost field agrees with
+    (`Coherent`, i.e. NoRefReassignWhileParked: no event name changed under a parked head), the scan is the
+    one of the property statement: all (P instance position, instance, head) with head status ≠ INACTIVE,
+    instance listening, element at the head position a match element. -/
+def Coherent (P : FUid → Nat → Option String) (s : IState) : Prop :=
+  ∀ i ∈ s.insts, ∀ hd ∈ i.heads, hd.elem = P i.uid hd.pos
+
+def scanP (P : FUid → Nat → Option String) (s : IState) : List (String × Key) :=
+  s.insts.flatMap fun i =>
+    if i.status.listening then
+      i.heads.filterMap fun hd =>
+        if hd.status ≠ .inactive then (P i.uid hd.pos).map fun nm => (nm, (i.uid, hd.uid)) else none
+    else []
+
+theorem scan_eq_scanP (P : FUid → Nat → Option String) (s : IState) (hc : Coherent P s) : scan s = scanP P s := by
+  unfold scan scanP
+  have key : ∀ (l : List Inst), (∀ i ∈ l, ∀ hd ∈ i.heads, hd.elem = P i.uid hd.pos) →
+      (l.flatMap fun i => if i.status.listening then i.heads.filterMap fun hd =>
+          if hd.status ≠ .inactive then hd.elem.map fun nm => (nm, (i.uid, hd.uid)) else none else []) =
+      (l.flatMap fun i => if i.status.listening then i.heads.filterMap fun hd =>
+          if hd.status ≠ .inactive then (P i.uid hd.pos).map fun nm => (nm, (i.uid, hd.uid)) else none else []) := by
+    intro l
+    induction l with
+    | nil => intro _; rfl
+    | cons i rest ih =>
+      intro h
+      simp only [List.flatMap_cons]
+      rw [ih (fun j hj => h j (List.mem_cons_of_mem _ hj))]
+      congr 1
+      split
+      · have inner : ∀ (hs : List Head), (∀ hd ∈ hs, hd.elem = P i.uid hd.pos) →
+            (hs.filterMap fun hd => if hd.status ≠ .inactive then hd.elem.map fun nm => (nm, (i.uid, hd.uid)) else none) =
+            (hs.filterMap fun hd => if hd.status ≠ .inactive then (P i.uid hd.pos).map fun nm => (nm, (i.uid, hd.uid)) else none) := by
+          intro hs
+          induction hs with
+          | nil => intro _; rfl
+          | cons hd tl ih2 =>
+            intro hh
+            simp only [List.filterMap_cons]
+            rw [hh hd List.mem_cons_self, ih2 (fun x hx => hh x (List.mem_cons_of_mem _ hx))]
+        exact inner i.heads (h i List.mem_cons_self)
+      · rfl
+  exact key s.insts hc
+
+/-
+  T2 (NOT proved; kept as the target statement):
+
+    theorem quiescent (fuel) (ev) (s s' : VM) :
+        Inv s → runToCompletion fuel ev s = .ok () s' →
+        Inv s' ∧ s'.ixs.ok = true ∧ NoStopping s'.ixs.ix          -- ⇒ index s' = scan s' by `quiescent_partial`
+        ∧ Parked s'      -- every ACTIVE head of a listening instance is on a match / wait-for-heads element, none MERGING
+        ∧ NoPos s'       -- STOPPED / FINISHED instances have `heads = []`
+        ∧ RefsLive s'    -- child_flow_uids, action_uids, scope members, index entries of listening instances exist
+    with `Inv (initializeState prog)`, proved by the worklist invariant "every ACTIVE head of a listening
+    instance that is not parked is in the pending list of the current loop" carried through
+    `advanceHeadFront`, the merging loop and `resolveActionConflicts`.
+
+  What is proved above: the queue clause (loop structure) and the index clause (by construction + T1), the latter
+  under the run-time-checked hypotheses `ok` and `NoStopping`. `Parked`, `NoPos`, `RefsLive`, and the fact that the
+  guards hold / no instance is left STOPPING, rest on the oracle evaluated on the real interpreter state after
+  every event and on the CoreVM correspondence (which compares heads, statuses, index, actions, queue length and
+  reports the `ok` flag), not on a theorem.  `RefsLive` is known to be violated by the code (finding
+  dangling-scope-action).
+-/
+
+/-! Non-vacuity of the CoreVM statements: `runToCompletion … = .ok () s'` is what the driver observes for every
+    event of every generated case on every run of the check (several thousand normal returns per run; the
+    evidence file counts them as `vm:events-agreed`); the kernel cannot evaluate the monadic interpreter by
+    `decide`, so no closed `example` is given here. The layer-1 statements have kernel-evaluated examples above. -/
 
 end NemoVerif.C09
